@@ -147,6 +147,19 @@ impl Layer for DialogLayer {
     }
 }
 
+#[cfg(feature = "ezk-verif")]
+impl DialogLayer {
+    /// Sizes of the internal tables: (dialogs, backlog entries over all dialogs, usages over all dialogs)
+    pub fn verif_counts(&self) -> (usize, usize, usize) {
+        let dialogs = self.dialogs.lock();
+        (
+            dialogs.len(),
+            dialogs.values().map(|e| e.backlog.len()).sum(),
+            dialogs.values().map(|e| e.usages.len()).sum(),
+        )
+    }
+}
+
 impl DialogLayer {
     async fn handle_unwanted_request(
         &self,
